@@ -178,6 +178,21 @@ pub fn end_window() -> WindowReport {
     })
 }
 
+/// Really release every quarantined block now and forget it (used when a whole arena has died
+/// and the harness will never look at its memory again): later allocations may reuse the addresses.
+pub fn flush_freed() {
+    with_state(|st| {
+        st.blocks.retain(|b| {
+            if b.freed {
+                unsafe { System.dealloc(b.addr as *mut u8, Layout::from_size_align_unchecked(b.size, b.align)) };
+                false
+            } else {
+                true
+            }
+        });
+    })
+}
+
 pub fn window_open() -> bool {
     ON.with(|o| o.get())
 }
